@@ -90,10 +90,11 @@ C11(pre, e, post, line) ==
            starts == {i \in DOMAIN L : L[i].op = "start_fl"}
        IN \A i \in starts :
             LET an == L[i].acct
-                idx == L[i].end_index + 1            \* 1-based position of the named end
+                wide == Has(L[i], "end_index_wide")   \* an argument beyond every possible instruction index (see TxShape)
+                idx == IF wide THEN n + 1 ELSE L[i].end_index + 1            \* 1-based position of the named end
                 a == IF Has(pre.accts, an) THEN pre.accts[an] ELSE [flags |-> <<>>]
             IN /\ Chk("C11", "start_names_a_later_end_of_this_program_for_the_same_account", line,
-                      /\ ~IsCpi(L[i]) /\ idx > i /\ idx <= n
+                      /\ ~wide /\ ~IsCpi(L[i]) /\ idx > i /\ idx <= n
                       /\ L[idx].op = "end_fl" /\ L[idx].acct = an /\ ~IsCpi(L[idx]),
                       [acct |-> an, start_at |-> i, end_index |-> idx, len |-> n])
                /\ Chk("C11", "refused_for_disabled_frozen_or_in_receivership", line,
